@@ -26,9 +26,9 @@
       another message representative, or a hash collision on two distinct
       strings.
    3. OTHER KEY, ECDSA: the literal clause "signatures are rejected under
-      other keys" is FALSE for keys computed from the signature: under the
-      recovery law (which real ECDSA satisfies) the genuine signature is
-      accepted, for any message whatsoever, under the recovered key. *)
+      other keys" is REFUTED: as soon as another point verifies the genuine
+      (r, s) for the digest in question (which public-key recovery provides,
+      for any message), ~ (forall pub' <> pub, Verify pub' = Err). *)
 From Coq Require Import List NArith ZArith Bool Lia Arith.
 From Tink Require Import Bytes DER DERProofs Sig SigProofs SigProofs2.
 Import ListNotations.
@@ -267,25 +267,40 @@ Section Ecdsa.
     split; [exact Ed|]. intros E. apply app_inv_tail in E. contradiction.
   Qed.
 
-  (* OTHER KEY: the literal clause is false.  [recover c d r s]: the public-key
-     recovery of ECDSA (p = r^-1 (s R - d G) for a point R with abscissa r);
-     None when there is no such point or the result is the point at infinity.
-     The law says: whatever recovery returns verifies.  Real ECDSA satisfies
-     it; for a signature that verifies at all, recovery succeeds for every
-     digest but the single class d = s k (mod n). *)
-  Variable recover : curve -> bytes -> N -> N -> option bytes.
-  Hypothesis recover_law :
-    forall c d r s p, recover c d r s = Some p -> raw c p d r s = true.
-
-  Theorem ecdsa_other_key_rejected_is_false k sk rnd msg sig h' msg' p' :
+  (* OTHER KEY: the literal clause "rejected under every other key" is false
+     as soon as some other point verifies the genuine (r, s) for the digest in
+     question -- which ECDSA public-key recovery provides: p' = r^-1 (s R - d' G)
+     for a point R with abscissa r (harness: recoverECDSAKey). *)
+  Theorem ecdsa_other_key_rejected_refuted k sk rnd msg sig h' msg' p' :
     ecdsa_sign H sign_rs k sk rnd msg = Some sig ->
     let sfx := suffix (ek_variant k) in
     let rs := sign_rs (ek_curve k) sk (H (ek_hash k) (msg ++ sfx)) rnd in
-    recover (ek_curve k) (H h' (msg' ++ sfx)) (fst rs) (snd rs) = Some p' ->
-    ecdsa_verify H raw (ecdsa_with_pub_hash k p' h') sig msg' = Ok tt.
+    raw (ek_curve k) p' (H h' (msg' ++ sfx)) (fst rs) (snd rs) = true ->
+    p' <> ek_pub k ->
+    ~ (forall pub', pub' <> ek_pub k ->
+         ecdsa_verify H raw (ecdsa_with_pub_hash k pub' h') sig msg' = Err).
   Proof.
-    intros Hs sfx rs Hrec.
+    intros Hs sfx rs Hr Hne Hall.
     destruct (ecdsa_genuine_accept_iff k sk rnd msg sig p' h' msg' Hs) as [Hi _].
-    apply Hi. apply recover_law. exact Hrec.
+    assert (Ho : ecdsa_verify H raw (ecdsa_with_pub_hash k p' h') sig msg' = Ok tt) by (apply Hi; exact Hr).
+    rewrite (Hall p' Hne) in Ho. discriminate.
+  Qed.
+
+  (* the same from an EXISTENCE law on the oracle: whenever (r, s) verifies for
+     d under p, it also verifies for d under some other point (real ECDSA: the
+     key recovered from the second candidate -R).  Then the genuine signature,
+     for the genuine message, is accepted under a key other than the signer's. *)
+  Theorem ecdsa_other_key_rejected_refuted_by_existence k sk rnd msg sig :
+    (forall c p d r s, raw c p d r s = true -> exists p', p' <> p /\ raw c p' d r s = true) ->
+    ecdsa_sign H sign_rs k sk rnd msg = Some sig ->
+    ecdsa_verify H raw k sig msg = Ok tt ->
+    ~ (forall pub', pub' <> ek_pub k ->
+         ecdsa_verify H raw (ecdsa_with_pub_hash k pub' (ek_hash k)) sig msg = Err).
+  Proof.
+    intros Hex Hs Hv.
+    destruct (ecdsa_genuine_accept_iff k sk rnd msg sig (ek_pub k) (ek_hash k) msg Hs) as [Hi _].
+    assert (Ek : ecdsa_with_pub_hash k (ek_pub k) (ek_hash k) = k) by (destruct k; reflexivity).
+    rewrite Ek in Hi. apply Hi in Hv. destruct (Hex _ _ _ _ _ Hv) as [p' [Hne Hr]].
+    eapply ecdsa_other_key_rejected_refuted; eassumption.
   Qed.
 End Ecdsa.
